@@ -346,6 +346,51 @@ func TestVerifC01(t *testing.T) {
 			emit("member-forgery", hist, f.sym, uint64(720000+i), x, true, f.name)
 			again("member-forgery", r, hist, f.sym, uint64(720000+i), f.data, x, f.name)
 		}
+		// (D') the same fellow member on the PUSH path: an out-of-store message names its own identifier, so
+		// the attacker can point at a message the receiver has already opened through the log (whose key is
+		// then kept under that identifier), with another payload sealed under that message's key
+		{
+			type pushForgery struct {
+				name   string
+				opened []int
+				ctr    uint64
+				cidOf  int // identifier of this genuine message (0: none)
+				sig    []byte
+			}
+			_, hdr2, _ := att.OpenEnvelopeHeaders(envs[2], g)
+			pf := []pushForgery{
+				{"names the identifier of delivered message 1, signature of message 1", []int{1}, 1, 1, sig1},
+				{"names the identifier of delivered message 1, no signature", []int{1}, 1, 1, nil},
+				{"names the identifier of delivered message 1, signed by the attacker's device", []int{1}, 1, 1, asig(forgedPayload)},
+				{"names the identifier of delivered message 2 after messages 1-3 were delivered", []int{1, 2, 3}, 2, 2, hdr2.Sig},
+				{"message 1 not yet delivered, its identifier, signature of message 1", nil, 1, 1, sig1},
+				{"no identifier, counter 5, signature of message 1", []int{1}, 5, 0, sig1},
+				{"identifier of delivered message 1 under counter 2", []int{1}, 2, 1, sig1},
+			}
+			for i, f := range pf {
+				r, _ := freshRecv(f.opened...)
+				oos := &protocoltypes.OutOfStoreMessage{DevicePk: sdevRaw, Counter: f.ctr, Sig: f.sig,
+					EncryptedPayload: secretbox.Seal(nil, forgedPayload, uint64AsNonce(f.ctr), (*[32]byte)(keyAt(f.ctr)))}
+				if f.cidOf > 0 {
+					oos.Cid = vCID(envs[f.cidOf]).Bytes()
+				}
+				ok, note, sig := true, "", ""
+				func() {
+					defer func() {
+						if x := recover(); x != nil {
+							ok, note, sig = false, fmt.Sprintf("panic: %v", x), "panic while opening an envelope"
+						}
+					}()
+					clear, _, err := r.OutOfStoreMessageOpen(ctx, oos, gpk)
+					if err == nil {
+						ok, sig = false, "forged envelope accepted"
+						note = fmt.Sprintf("out-of-store message forged by a fellow member (%s) is delivered: payload id %d attributed to the sender's device at counter %d", f.name, payloadID(clear), f.ctr)
+					}
+				}()
+				out.Emit(vharness.Case{Kind: "member-forgery-push", Key: fmt.Sprintf("push-forgery-%d-%d%s", round, i, keySuffix), Nontrivial: true, OracleOK: ok, Note: note, Sig: sig,
+					Replay: map[string]any{"forgery": f.name, "delivered_before": f.opened, "counter": f.ctr}})
+			}
+		}
 	}
 	// (E) a forged envelope that claims to come from the very device that opens it: the opener R has
 	// sealed messages itself (so it still holds their keys), a fellow member who registered R's chain
